@@ -159,9 +159,9 @@ HPost(s, v, p, leg, x) ==
               ELSE R([s2 EXCEPT !.code = @ \cup {x}], "code")
 
 \* A: authorization endpoint, response_type=vp_token (the wallet). ck: another tenant's cookie is sent along (ignored by
-\* the code: the session names its tenant). drop: the attacker keeps that leg's direct_post for himself.
-HAuthW(s0, b, tn, r, drop) ==
-    LET s == Sess(s0, b, tn)
+\* the code: the session names its tenant, a new session is made). drop: the attacker keeps that leg's direct_post for himself.
+HAuthW(s0, b, tn, r, ck, drop) ==
+    LET s == IF ck = "" THEN Sess(s0, b, tn) ELSE [s0 EXCEPT !.wal[b][tn] = "empty"]   \* a foreign cookie: a fresh session replaces the browser's
         fo == HFetchB(s, Ver(r), r, "org", "get") IN
     IF WalletBoundToFlow /\ (r \notin s.cst \/ s.lsess[r] # <<b, tn>>) THEN R(s, "error-page")
     ELSE IF fo.out # "jwt" THEN R(fo.s, "error-page")
@@ -236,7 +236,7 @@ AuthW(b, tn, r, ck, drop) ==
     LET atk == tn # Tenant(r) \/ ck # "" \/ drop # "" \/ <<r, "org">> \notin st.roB IN
     /\ MadeR2(r) /\ (atk => natk < MaxAtk) /\ ck # tn /\ (ck # "" => st.wal[b][ck] # "none" /\ drop = "")
     /\ (drop = "user" => Scope(r) = "both")
-    /\ Step(HAuthW(st, b, tn, r, drop), [E0 EXCEPT !.a = "AuthW", !.b = b, !.tn = tn, !.r = r, !.ck = ck, !.drop = drop], atk)
+    /\ Step(HAuthW(st, b, tn, r, ck, drop), [E0 EXCEPT !.a = "AuthW", !.b = b, !.tn = tn, !.r = r, !.ck = ck, !.drop = drop], atk)
 Callback(b, tn, c, x) ==
     LET atk == c # x \/ tn # Tenant(x) \/ c \notin st.code \/ x \notin st.cst IN
     /\ MadeCode(c) /\ MadeCs(x) /\ (atk => natk < MaxAtk)
